@@ -19,7 +19,9 @@
 (* and mutually recursive scopes (through a property, a list, a map, a     *)
 (* one-of member), each with a variant that differs deep inside the cycle. *)
 (*                                                                         *)
-(*   depth 1:  all ordered pairs of U0 (identical, mutated, unrelated)     *)
+(*   depth 1:  all ordered pairs of one family (identical, mutated) and    *)
+(*             every schema against one representative of each other       *)
+(*             family, both ways (unrelated)                               *)
 (*   depth 2:  W(S) against W(T) for every wrapper W in Wrap2 and every    *)
 (*             pair of one family (plus one representative per family      *)
 (*             against every other)                                        *)
@@ -63,12 +65,25 @@ UnitScalars3 == {ScalarU("int", None, None, "bytes"), ScalarU("int", None, None,
                  ScalarU("float", None, None, "time"), ScalarU("float", None, None, "custom")}
 Enums(E)   == {Enum(k, vs, n) : k \in {"enum_int", "enum_string"}, vs \in E, n \in BOOLEAN}
 Simple     == {BoolS, PatternS, AnyS}
+\* an integer enum and the string enums that spell (all / one of) the same numbers as one-character strings:
+\* what Go's integer-to-string conversion makes of 65 and 66 is "A" and "B"
+RuneEnums  == {Enum("enum_int", {65, 66}, FALSE), EnumS("enum_string", {65, 66}, FALSE, "rune"),
+               EnumS("enum_string", {65, 66}, FALSE, "mixed")}
 
 \* objects: O0 and its single-feature mutations
 P0 == {Prop("p", IntU, TRUE), Prop("q", Str, FALSE)}
 O0 == Object("O", P0, FALSE)
 OM == ObjectI("O", P0, FALSE, "mapped")
 OT == ObjectI("O", P0, FALSE, "typed")
+\* objects with rules between their fields: compatible with themselves and their rebuilt copies like any other
+OC == Object("O", { PropR("p", IntU, FALSE, FALSE, FALSE, {"q"}, {}, {}),               \* p and q conflict
+                    PropR("q", Str, FALSE, FALSE, FALSE, {"p"}, {}, {}) }, FALSE)
+ObjectsR == { OC,
+              Object("O", { Prop("p", IntU, TRUE),                                      \* q required when p is set
+                            PropR("q", Str, FALSE, FALSE, FALSE, {}, {"p"}, {}) }, FALSE),
+              Object("O", { PropR("p", IntU, FALSE, FALSE, FALSE, {}, {}, {"q"}),       \* p required when q is not set
+                            Prop("q", Str, FALSE) }, FALSE) }
+
 Objects == { O0,
              Object("P", P0, FALSE),                                                   \* another ID
              Object("P", P0, TRUE),                                                    \* another ID, not enforced
@@ -89,12 +104,25 @@ Objects == { O0,
              Object("O", P0 \cup {PropX("r", BoolS, FALSE, FALSE, TRUE)}, FALSE),                \* one optional disabled property more
              Object("O", {PropX("p", IntU, TRUE, FALSE, TRUE), Prop("q", Str, FALSE)}, FALSE),   \* p disabled
              OM, OT }                                                                  \* O0 struct-mapped / as a typed object
+             \cup ObjectsR
 
 \* one-ofs: X0 and its single-feature mutations
 MA == Object("MA", {Prop("x", IntU, TRUE)}, FALSE)
 MB == Object("MB", {Prop("y", Str, FALSE)}, FALSE)
 MC == Object("MC", {Prop("z", BoolS, FALSE)}, FALSE)
 X0 == OneOf("string", "kind", {Member(1, MA), Member(2, MB)})
+\* one-ofs that inline the discriminator.  DT(d) = the type a discriminator of kind d has as a property; the
+\* members of XI declare BOTH candidate fields (so members of XI(d, "kind") and XI(d, "type") are pairwise
+\* compatible and only the field name tells the two one-ofs apart), the members of XJ only their own.
+DT(d) == IF d = "string" THEN Str ELSE IntU
+IM(id, d, fs) == Object(id, {Prop("x", IntU, FALSE)} \cup {Prop(f, DT(d), TRUE) : f \in fs}, FALSE)
+XI(d, f) == OneOfI(d, f, {Member(1, IM("MA", d, {"kind", "type"})), Member(2, IM("MB", d, {"kind", "type"}))}, TRUE)
+XJ(d, f) == OneOfI(d, f, {Member(1, IM("MA", d, {f})), Member(2, IM("MB", d, {f}))}, TRUE)
+OneOfsI == {XI(d, f) : d \in {"string", "int"}, f \in {"kind", "type"}} \cup {XJ("string", f) : f \in {"kind", "type"}}
+\* the same behind references, inside a scope (rebuilt modes)
+SXI(f) == Scope("R", { Object("R", {Prop("item", OneOfI("string", f, {Member(1, Ref("MA")), Member(2, Ref("MB"))}, TRUE), TRUE)}, FALSE),
+                       IM("MA", "string", {"kind", "type"}), IM("MB", "string", {"kind", "type"}) })
+
 OneOfs == { X0,
             OneOf("int", "kind", {Member(1, MA), Member(2, MB)}),                      \* integer discriminator
             OneOf("string", "type", {Member(1, MA), Member(2, MB)}),                   \* another field
@@ -102,6 +130,7 @@ OneOfs == { X0,
             OneOf("string", "kind", {Member(1, MA), Member(2, MB), Member(3, MC)}),    \* one member more
             OneOf("string", "kind", {Member(1, MA), Member(2, MC)}),                   \* another object under key 2
             OneOf("string", "kind", {Member(1, MA), Member(3, MB)}) }                  \* another key
+          \cup OneOfsI
 
 \* scopes with references: S0 and its mutations
 SC(x, req) == Object("C", {Prop("x", x, req)}, FALSE)
@@ -110,7 +139,10 @@ S0 == Scope("O", {SR(Ref("C")), SC(Str, TRUE)})
 \* S0 with struct-mapped objects: the scope and the reference reflect as the Go struct
 SM == Scope("O", { ObjectI("O", {Prop("p", IntU, TRUE), Prop("c", Ref("C"), FALSE)}, FALSE, "mapped"),
                    ObjectI("C", {Prop("x", Str, TRUE)}, FALSE, "mapped") })
-Scopes == { S0, SM,
+Scopes == { S0, SM, SXI("kind"), SXI("type"),
+            Scope("O", {SR(Ref("C")),                                                  \* referenced object's fields conflict
+                        Object("C", { PropR("x", Str, FALSE, FALSE, FALSE, {"y"}, {}, {}),
+                                      PropR("y", BoolS, FALSE, FALSE, FALSE, {"x"}, {}, {}) }, FALSE)}),
             Scope("O", {SR(Ref("C")), SC(IntU, TRUE)}),                                \* referenced object differs in a kind
             Scope("O", {SR(Ref("C")), SC(Str, FALSE)}),                                \* ... in "required"
             Scope("O", {SR(Ref("D")), Object("D", {Prop("x", Str, TRUE)}, FALSE)}),    \* ... in its ID
@@ -133,18 +165,20 @@ Recs == { Rec1(IntU), Rec1(Str), RecL(IntU), RecM(IntU), RecO(IntU),
 
 \* typed lists in every bound shape of B, typed maps in the shapes of the reduced bounds B3
 Universe(B, E, B3) == Scalars(B) \cup UnitScalars \cup Lists(B) \cup TLists(B) \cup Maps(B) \cup TMaps(B3)
-                  \cup Enums(E) \cup Simple
+                  \cup Enums(E) \cup RuneEnums \cup Simple
                   \cup Objects \cup OneOfs \cup Scopes \cup Recs
 U0 == Universe(BoundsOf(MinVals, MaxVals), EnumSets, BoundsOf(MinVals3, MaxVals3))
 U3 == Scalars(BoundsOf(MinVals3, MaxVals3)) \cup UnitScalars3 \cup Lists(BoundsOf(MinVals3, MaxVals3))
       \cup Maps(BoundsOf(MinVals3, MaxVals3)) \cup TLists(BoundsOf(MinVals3, MaxVals3))
-      \cup TMaps(BoundsOf(MinVals3, MaxVals3)) \cup Enums(EnumSets3) \cup Simple
-      \cup Objects \cup OneOfs \cup {S0, SM, Rec1(IntU), Rec1(Str)}
+      \cup TMaps(BoundsOf(MinVals3, MaxVals3)) \cup Enums(EnumSets3) \cup RuneEnums \cup Simple
+      \cup (Objects \ (ObjectsR \ {OC})) \cup (OneOfs \ (OneOfsI \ {XI("string", "kind"), XI("string", "type")}))
+      \cup {S0, SM, Rec1(IntU), Rec1(Str)}
 
 \* one representative per family, compared across families below the wrappers
 Reps == {IntU, FloatU, Str, BoolS, PatternS, AnyS, List(BoolS, None, None), Map(Str, BoolS, None, None),
          Enum("enum_int", {1}, FALSE), Enum("enum_string", {1}, FALSE), O0, OM, OT, X0, S0, SM, Rec1(IntU),
          ListI(BoolS, None, None, "typed"), MapI(Str, BoolS, None, None, "typed"), ScalarU("int", None, None, "bytes")}
+        \cup RuneEnums
 \* ... and below the wrapper pairs of depth 3 (any and pattern against every kind, three levels down)
 Reps3 == {IntU, FloatU, Str, BoolS, PatternS, AnyS, List(BoolS, None, None), Map(Str, BoolS, None, None),
           O0, OM, OT, X0, S0, SM, ListI(BoolS, None, None, "typed"), MapI(Str, BoolS, None, None, "typed"),
@@ -187,17 +221,22 @@ Hists(a, b, m) == {"none"} \cup (IF HasUnits(a) THEN {"a"} ELSE {})
 Case(a, b, m, h) == [a |-> a, b |-> b, mode |-> m, hist |-> h]
 Pick(a, b) == \E m \in Modes(a, b) : \E h \in Hists(a, b, m) : v = Case(a, b, m, h)
 
-\* the typed containers and the unit-carrying scalars meet their own family and the representatives of the
+\* the typed containers, the unit-carrying scalars, the objects with rules between fields and the inlining one-ofs meet their own family and the representatives of the
 \* others (not every unrelated schema); below a wrapper the typed lists keep the reduced bound shapes and
-\* the unit-carrying scalars are those of the reduced universe
+\* the unit-carrying scalars are those of the reduced universe; of the objects with rules the one with
+\* conflicting fields, of the inlining one-ofs those whose members declare both candidate fields
 Ext(s) == \/ s.kind \in {"list", "map"} /\ s.impl = "typed"
           \/ s.kind \in {"int", "float"} /\ s.units # "none"
+          \/ s \in ObjectsR \cup OneOfsI \cup RuneEnums
 Deep2(s) == /\ (s.kind = "list" /\ s.impl = "typed") => <<s.min, s.max>> \in BoundsOf(MinVals3, MaxVals3)
             /\ (s.kind \in {"int", "float"} /\ s.units # "none") => s \in UnitScalars3
+            /\ s \notin (ObjectsR \ {OC}) \cup {XJ("string", f) : f \in {"kind", "type"}}
 
 Init ==
     \/ \E s \in U0 : \E t \in U0 :
-          /\ (~Ext(s) /\ ~Ext(t)) \/ Related(s, t) \/ (s \in Reps /\ t \in Reps)
+          /\ \/ Related(s, t)
+             \/ s \in Reps /\ t \in Reps
+             \/ ~Ext(s) /\ ~Ext(t) /\ (s \in Reps \/ t \in Reps)
           /\ Pick(s, t)
     \/ \E w \in Wrap2 : \E s \in U0 : \E t \in U0 :
           /\ Related(s, t) \/ (s \in Reps /\ t \in Reps)
@@ -205,7 +244,9 @@ Init ==
           /\ CanWrap(w, s) /\ CanWrap(w, t)
           /\ Pick(W(w, s), W(w, t))
     \/ \E ww \in Wrap3 : \E s \in U3 : \E t \in U3 :
-          /\ Related(s, t) \/ (s \in Reps3 /\ t \in Reps3 /\ "any" \in {s.kind, t.kind})
+          /\ \/ Related(s, t)
+             \/ s \in Reps3 /\ t \in Reps3 /\ "any" \in {s.kind, t.kind}
+             \/ s \in RuneEnums /\ t \in RuneEnums
           /\ CanWrap(ww[2], s) /\ CanWrap(ww[2], t) /\ ww[1] # "mapkey"
           /\ Pick(W(ww[1], W(ww[2], s)), W(ww[1], W(ww[2], t)))
 Next == UNCHANGED v
@@ -217,13 +258,20 @@ RuleNames == {"kind", "range", "size", "enum_value", "id", "undeclared", "missin
 
 WFOK == WellFormed(v.a) /\ WellFormed(v.b)
 
-\* the two halves of the partial specification never contradict each other (this is what
-\* forces min <= max), and the recursion terminates - also on recursive scopes
-Consistent == ~(MustReject(v.a, v.b) /\ MustAccept(v.a, v.b))
-Terminates == Reasons(v.a, v.b, {}, {}, {}) \subseteq RuleNames
-
-\* every schema is compatible with itself
-Reflexive == Expect(v.a, v.a) = "accept" /\ Expect(v.b, v.b) = "accept"
+\* Reasons is evaluated once per state (R) and the properties below are stated on it:
+\*   Consistent   the two halves of the partial specification never contradict each other (this is what
+\*                forces min <= max)
+\*   Terminates   the recursion terminates - also on recursive scopes - with known rule names
+\*   Reflexive    every schema is compatible with itself
+\*   ModesOK      a case the two sides of which are the same schema is never "open"
+\*   FlagsBlind   the rejection rules look at the structure only: defaults, disabled flags and the rules
+\*                between fields change no reason
+ExpectOf(R, a, b) == IF R # {} THEN "reject" ELSE IF MustAccept(a, b) THEN "accept" ELSE "open"
+Consistent(R) == ~(R # {} /\ MustAccept(v.a, v.b))
+Terminates(R) == R \subseteq RuleNames
+Reflexive     == Reasons(v.a, v.a, {}, {}, {}) = {} /\ (v.b = v.a \/ Reasons(v.b, v.b, {}, {}, {}) = {})
+ModesOK(R)    == (v.mode \in {"self", "ra"} => v.a = v.b) /\ (v.a = v.b => ExpectOf(R, v.a, v.b) = "accept")
+FlagsBlind(R) == R = Reasons(Plain(v.a), Plain(v.b), {}, {}, {})
 
 \* operational range test = declarative reading ("the ranges have no common point")
 Line == 0..12
@@ -231,14 +279,9 @@ Bounded(S) == S.kind \in {"int", "float", "string", "list", "map"}
 RangesDeclarative ==
     (Bounded(v.a) /\ v.a.kind = v.b.kind) => (Disjoint(v.a, v.b) <=> NoCommonPoint(v.a, v.b, Line))
 
-\* a case the two sides of which are the same schema is never "open"
-ModesOK == (v.mode \in {"self", "ra"} => v.a = v.b) /\ (v.a = v.b => Expect(v.a, v.b) = "accept")
+ModelOK == LET R == Reasons(v.a, v.b, {}, {}, {}) IN
+           WFOK /\ Consistent(R) /\ Terminates(R) /\ Reflexive /\ RangesDeclarative /\ ModesOK(R) /\ FlagsBlind(R)
 
-\* the rejection rules look at the structure only: defaults and disabled flags change no reason
-FlagsBlind == Reasons(v.a, v.b, {}, {}, {}) = Reasons(Plain(v.a), Plain(v.b), {}, {}, {})
-
-ModelOK == WFOK /\ Consistent /\ Terminates /\ Reflexive /\ RangesDeclarative /\ ModesOK /\ FlagsBlind
-
-Export == Emit([a |-> v.a, b |-> v.b, mode |-> v.mode, hist |-> v.hist, exp |-> Expect(v.a, v.b),
-                rules |-> Reasons(v.a, v.b, {}, {}, {})])
+Export == LET R == Reasons(v.a, v.b, {}, {}, {}) IN
+          Emit([a |-> v.a, b |-> v.b, mode |-> v.mode, hist |-> v.hist, exp |-> ExpectOf(R, v.a, v.b), rules |-> R])
 =============================================================================
